@@ -67,7 +67,7 @@ class Report(object):
             if key in seen_keys and reported >= 1:
                 continue
             seen_keys.add(key)
-            if reported >= 10:
+            if reported >= int(os.environ.get('VF_MAXV', '10')):
                 break
             os.makedirs(rdir, exist_ok=True)
             blob = json.dumps({'property': self.pid, 'key': key, 'desc': desc, 'tier': self.tier,
